@@ -624,6 +624,7 @@ func RunHistReuse(r *Run) {
 					continue
 				}
 				if (perr == nil) != ref.OK {
+					r.Res.Inputs["doc"] = b64(buf.b) // the document of the failing call, for the replay file
 					r.violate("outcome", "reuse-verdict", fmt.Sprintf("%s: %s %s with reuse=%v: ok=%v (%v) but a fresh parse would give ok=%v (%s); history: %v", what, cfg, desc, ru != nil, perr == nil, perr, ref.OK, ref.Err, trace))
 					return
 				}
